@@ -184,6 +184,13 @@ func makeInputs(r *rand.Rand, dir string, ntax int) *cmdInputs {
 		tp.Name = fmt.Sprintf("new%02d", j)
 	}
 	in.files["graft.nw"] = g.Newick() + "\n"
+	// the first tree again, with numbers as other programs write them and a line break inside the tree
+	loose := regexp.MustCompile(`:([0-9]+)([,)])`).ReplaceAllString(in.files["t.nw"], ":$1.0$2")
+	loose = regexp.MustCompile(`:0\.([0-9])([0-9]*)([,)])`).ReplaceAllString(loose, ":$1.${2}e-1$3")
+	if k := strings.Index(loose, ","); k > 0 {
+		loose = loose[:k+1] + "\n " + loose[k+1:]
+	}
+	in.files["tloose.nw"] = loose
 	in.files["tipname.txt"] = names[0]
 	in.files["innername.txt"] = "node01"
 	// identical-tip groups for repopulate
@@ -342,6 +349,11 @@ var cmdTable = []cmdTmpl{
 	{Name: "compute consensus on .json name", Args: []string{"compute", "consensus", "-i", "{tsnewick.json}"}},
 	{Name: "sample on .txt name", Args: []string{"sample", "-i", "{tsnewick.txt}", "-n", "3"}, Seeded: true},
 	{Name: "stdin input", Args: []string{"stats", "tips"}, Stdin: "t.nw"},
+	// no option at all, input on standard input written the way other programs write numbers (1.0, 2.00, 1e-1, a line break)
+	{Name: "prune, no option at all", Args: []string{"prune"}, Stdin: "tloose.nw"},
+	{Name: "unroot, no option at all", Args: []string{"unroot"}, Stdin: "tloose.nw"},
+	{Name: "reformat newick, no option at all", Args: []string{"reformat", "newick"}, Stdin: "tloose.nw"},
+	{Name: "rotate sort, no option at all", Args: []string{"rotate", "sort"}, Stdin: "tloose.nw"},
 }
 
 // expand builds the argument list of one run; outDir receives the {out:x} files.
